@@ -104,9 +104,15 @@ func (s *sortedSet[ElementType, WeightType]) addSorted(element ElementType) {
 	if listElement, created := s.elements.GetOrCreate(element, func() *sortedSetElement[ElementType, WeightType] {
 		return newSortedSetElement(element, s)
 	}); created {
+		// the initial update is triggered by OnUpdate itself while we are still holding the mutex. All invocations of
+		// the callback are serialized by its execution lock, so the flag does not need any additional synchronization.
+		isInitialUpdate := true
+
 		listElement.unsubscribeFromWeightUpdates = s.weightVariable(element).OnUpdate(func(_ WeightType, newWeight WeightType) {
 			// only lock if this is not the initial update
-			if listElement.unsubscribeFromWeightUpdates != nil {
+			if isInitialUpdate {
+				isInitialUpdate = false
+			} else {
 				s.mutex.Lock()
 				defer s.mutex.Unlock()
 			}
